@@ -500,9 +500,9 @@ pub struct Engine {
     last_materialization_errors: Vec<ChannelConflict>,
 }
 
-pub(crate) struct ReserveOutcome {
-    pub(crate) receipt: TickReceipt,
-    pub(crate) reserved: Vec<PendingRewrite>,
+struct ReserveOutcome {
+    receipt: TickReceipt,
+    reserved: Vec<PendingRewrite>,
     in_slots: std::collections::BTreeSet<SlotId>,
     out_slots: std::collections::BTreeSet<SlotId>,
 }
@@ -2005,7 +2005,7 @@ impl Engine {
         self.last_materialization_errors.clear();
     }
 
-    pub(crate) fn reserve_for_receipt(
+    fn reserve_for_receipt(
         &mut self,
         tx: TxId,
         drained: Vec<PendingRewrite>,
@@ -3029,6 +3029,19 @@ pub(crate) fn footprints_conflict(
     a.n_write.intersects(&b.n_write)
         || a.n_write.intersects(&b.n_read)
         || b.n_write.intersects(&a.n_read)
+}
+
+/// Verification-only seam (feature `echo_verif`): the real reserve/blocker loop on a raw drained list.
+#[cfg(feature = "echo_verif")]
+impl Engine {
+    pub(crate) fn echo_verif_reserve_for_receipt(
+        &mut self,
+        tx: TxId,
+        drained: Vec<PendingRewrite>,
+    ) -> Result<(TickReceipt, Vec<PendingRewrite>), EngineError> {
+        let out = self.reserve_for_receipt(tx, drained)?;
+        Ok((out.receipt, out.reserved))
+    }
 }
 
 fn compute_plan_digest(plan: &[PendingRewrite]) -> Hash {
